@@ -169,7 +169,7 @@ def run(ctx):
     monprop = {"C10": "ALL", "C11": "C11"}.get(prop, "ALL")
     rep.assume("task bodies are scripts over: local, at_coroutine_exit(task), co_await of a controllable leaf sender / awaitable / "
                "as_sender(awaitable) / child task / done_as_optional(child task) / schedule(ctx) / stop_if_requested(), throw, co_return; "
-               "<= 3 frames, <= 6 statements per body, <= 2 cleanup actions per frame; cleanup actions are tasks that complete inline")
+               "<= 3 frames, <= 7 statements per body, <= 2 cleanup actions per frame; cleanup actions are tasks that complete inline")
     rep.assume("leaf outcomes: inline value/error/done or deferred with any channel (awaitable leaves: value/error only); deferred leaf "
                "senders react to stop by ignoring it or completing with done; one stop request on the receiver at any quiescent point "
                "(i.e. at every suspension point); all scheduler contexts are manual and drained one item at a time; single thread "
@@ -181,7 +181,7 @@ def run(ctx):
     json.dump([dict(id=s["id"], body=s["body"]) for s in cat], open(sp, "w"))
     # build first (cached); nothing else is built by this engine
     exe = vlib.build(ctx, "coro_driver", [os.path.join(HERE, "driver.cpp")],
-                     lib=["task.cpp", "inplace_stop_token.cpp", "async_stack.cpp", "exception.cpp"], incs=[HERE], std="c++20")
+                     lib=["task.cpp", "inplace_stop_token.cpp", "async_stack.cpp", "exception.cpp"], incs=[os.path.join(HERE, "rt")], std="c++20")
     # ---- TLC: fine-grained model, invariants in every state
     vlib.model_check(ctx, "coro", "TasksMC", env={"SCRIPTS": sp}, timeout=3000, xmx="8g")
     # ---- TLC: the stop-request thunk's refcount join under all interleavings of completion / stop request / deferred stop
